@@ -100,7 +100,7 @@ type Decoder struct {
 	listGranted int
 	// growing holds the slices being read whose first allocation is shorter than their count
 	// (see preallocList and assignTo)
-	growing []unsafe.Pointer
+	growing map[unsafe.Pointer]struct{}
 	// converted: see rememberConverted
 	converted map[convertedKey]interface{}
 	// depth counts the containers being decoded, one inside the other (see enter)
@@ -505,12 +505,8 @@ func (dec *Decoder) preallocList(count int, size uintptr) int {
 }
 
 func (dec *Decoder) isGrowing(slice unsafe.Pointer) bool {
-	for _, p := range dec.growing {
-		if p == slice {
-			return true
-		}
-	}
-	return false
+	_, ok := dec.growing[slice]
+	return ok
 }
 
 // maxDepth bounds the nesting of lists, maps and objects in the input. Every level is a level
